@@ -21,7 +21,9 @@ Bools(s) == [i \in 1..Len(s) |-> s[i] = 1]
 Ints(s)  == [i \in 1..Len(s) |-> IF s[i] THEN 1 ELSE 0]
 
 Mis(cls, e, detail) == PrintT(<<"MISMATCH", l, e.op, cls, detail>>)
-Div(cls, e, detail) == (TLCGet(3) >= 40 \/ PrintT(<<"DIVERGE", l, e.op, cls, detail>>)) /\ TLCSet(3, TLCGet(3) + 1)
+\* notes: at most 20 printed per class and shard (one TLC register per class)
+Div(cls, e, detail) == LET r == IF cls = "accepted" THEN 3 ELSE IF cls = "unitsDropped" THEN 4 ELSE 5 IN
+                       (TLCGet(r) >= 20 \/ PrintT(<<"DIVERGE", l, e.op, cls, detail>>)) /\ TLCSet(r, TLCGet(r) + 1)
 
 WF(us) == \A k \in 1..Len(us) : us[k].len = Len(us[k].contents)
 
@@ -77,7 +79,7 @@ Check(e) ==
     [] e.op = "ReactErrCause" -> CheckReact(e)
     [] OTHER -> PrintT(<<"HARNESS", l, "unknown op">>)
 
-TInit == l = 1 /\ v = 0 /\ TLCSet(2, 0) /\ TLCSet(3, 0)
+TInit == l = 1 /\ v = 0 /\ TLCSet(2, 0) /\ TLCSet(3, 0) /\ TLCSet(4, 0) /\ TLCSet(5, 0)
 TNext == /\ l <= Len(TraceLog)
          /\ (Check(TraceLog[l]) = TRUE)      \* as a value: TLC must not split the \/ inside into sub-actions
          /\ TLCSet(2, l)
